@@ -9,6 +9,7 @@
 #include <ompl/base/PlannerTerminationCondition.h>
 #include <ompl/base/goals/GoalState.h>
 #include <ompl/base/goals/GoalRegion.h>
+#include <ompl/base/goals/GoalStates.h>
 #include <ompl/base/spaces/RealVectorStateSpace.h>
 #include <ompl/base/spaces/SE2StateSpace.h>
 #include <ompl/base/spaces/SE3StateSpace.h>
@@ -308,7 +309,8 @@ namespace lab
         F_MULTILEVEL = 64,
         F_SYMM = 128,      // requires a symmetric distance / interpolation (not for Dubins)
         F_SLOWSETUP = 256,  // expensive per-solve setup (batch planners): fewer runs in quick tier
-        F_DIRAWARE = 512    // bidirectional, but validates goal-tree motions in the direction they are travelled
+        F_DIRAWARE = 512,   // bidirectional, but validates goal-tree motions in the direction they are travelled
+        F_SINGLESTART = 1024  // rejects several start states by design ("currently not supported")
     };
 
     struct Entry
@@ -362,8 +364,8 @@ namespace lab
         r.push_back(E<og::SORRTstar>("SORRTstar", F_OPT | F_PAIRS | F_APPROX));
         r.push_back(E<og::RRTsharp>("RRTsharp", F_OPT | F_PAIRS | F_APPROX | F_SYMM));   // "requires symmetric distance and interpolation"
         r.push_back(E<og::RRTXstatic>("RRTXstatic", F_OPT | F_PAIRS | F_APPROX | F_SYMM));
-        r.push_back(E<og::LBTRRT>("LBTRRT", F_OPT | F_PAIRS | F_APPROX));
-        r.push_back(E<og::LazyLBTRRT>("LazyLBTRRT", F_OPT | F_PAIRS | F_APPROX));
+        r.push_back(E<og::LBTRRT>("LBTRRT", F_OPT | F_PAIRS | F_APPROX | F_SINGLESTART));
+        r.push_back(E<og::LazyLBTRRT>("LazyLBTRRT", F_OPT | F_PAIRS | F_APPROX | F_SINGLESTART));
         r.push_back(E<og::LazyRRT>("LazyRRT", F_PAIRS));
         r.push_back(E<og::TRRT>("TRRT", F_OPT | F_PAIRS | F_APPROX));
         r.push_back(E<og::BiTRRT>("BiTRRT", F_PAIRS | F_BIDIR | F_DIRAWARE));
@@ -454,6 +456,102 @@ namespace lab
             return pd;
         }
     };
+
+    // a goal region that cannot be sampled (only planners growing a single tree from the start accept it)
+    class DiskGoal : public ob::GoalRegion
+    {
+    public:
+        DiskGoal(const ob::SpaceInformationPtr &si, const ob::State *centre, double thr) : ob::GoalRegion(si), centre_(si)
+        {
+            centre_ = centre;
+            setThreshold(thr);
+        }
+        double distanceGoal(const ob::State *st) const override
+        {
+            return si_->distance(st, centre_.get());
+        }
+        const ob::State *centre() const
+        {
+            return centre_.get();
+        }
+
+    private:
+        ob::ScopedState<> centre_;
+    };
+
+    // Query variants beyond one start / one goal state.  Returns the cells of the additional in-bounds
+    // start and goal states through xstarts / xgoals (for the model-side clauses).
+    inline ob::ProblemDefinitionPtr makeQueryVariant(Problem &pr, const std::string &kind, int startCell, int goalCell,
+                                                     double thr, vt::Rng &rng, std::vector<int> &xstarts,
+                                                     std::vector<int> &xgoals)
+    {
+        auto off = [&]() { return (rng.unit() - 0.5) * 0.6; };
+        double sdx = off(), sdy = off(), gdx = off(), gdy = off();
+        auto pd = pr.makeQuery(startCell, goalCell, thr, sdx, sdy, gdx, gdy);
+        const World &w = pr.world;
+        auto randomCell = [&]() { return rng.below(w.W * w.H); };
+        if (kind == "multistart")
+        {
+            // replace the start list: an out-of-bounds start, a start in a random cell (maybe an obstacle), the
+            // real start, another random one - in a random rotation
+            ob::ScopedState<> real(pr.space);
+            real = pd->getStartState(0);
+            pd->clearStartStates();
+            std::vector<ob::ScopedState<>> list;
+            {
+                ob::ScopedState<> oob(pr.space);
+                setCell(pr.space, oob.get(), w, startCell, 0, 0);
+                std::vector<double> reals;
+                pr.space->copyToReals(reals, oob.get());
+                reals[0] = -1.5;
+                pr.space->copyFromReals(oob.get(), reals);
+                if (dynamic_cast<ob::SE3StateSpace *>(pr.space.get()))
+                    oob->as<ob::SE3StateSpace::StateType>()->rotation().setIdentity();
+                list.push_back(oob);
+            }
+            for (int k = 0; k < 2; ++k)
+            {
+                int c = randomCell();
+                ob::ScopedState<> x(pr.space);
+                setCell(pr.space, x.get(), w, c, off(), off());
+                list.push_back(x);
+                xstarts.push_back(c);
+            }
+            list.insert(list.begin() + rng.below((int)list.size() + 1), real);
+            for (auto &x : list)
+                pd->addStartState(x);
+        }
+        else if (kind == "goalstates")
+        {
+            auto gs = std::make_shared<ob::GoalStates>(pr.si);
+            std::vector<ob::ScopedState<>> list;
+            for (int k = 0; k < 2; ++k)
+            {
+                int c = randomCell();
+                ob::ScopedState<> x(pr.space);
+                setCell(pr.space, x.get(), w, c, off(), off());
+                list.push_back(x);
+                xgoals.push_back(c);
+            }
+            ob::ScopedState<> real(pr.space);
+            real = pr.goal->getState();
+            list.insert(list.begin() + rng.below((int)list.size() + 1), real);
+            for (auto &x : list)
+                gs->addState(x);
+            if (thr > 0)
+                gs->setThreshold(thr);
+            pd->setGoal(gs);
+            pr.threshold = gs->getThreshold();
+        }
+        else if (kind == "region")
+        {
+            double t = thr > 0 ? thr : 0.35;
+            auto g = std::make_shared<DiskGoal>(pr.si, pr.goal->getState(), t);
+            pd->setGoal(g);
+            pr.threshold = t;
+        }
+        return pd;
+    }
 
     // ------------------------------------------------------------------ independent path oracle
     struct PathFacts
